@@ -18,6 +18,13 @@ def clamp(i, n):
     return min(max(i, 0), n - 1)
 
 
+def start_arg(s):
+    """'auto', a Python int or (every third value) a numpy integer: the same index"""
+    if s is None:
+        return "auto"
+    return [int, np.int64, np.int32][s % 3](s)
+
+
 def ref_move(pos, quat, disp, start):
     scalar = disp.ndim == 1
     N = len(pos)
@@ -83,7 +90,7 @@ def sweep(ctx, n_hist, n_ops):
                 n = rng.choice([0, 1, 2, 3])
                 disp = nps.uniform(-2, 2, 3) if rng.random() < 0.5 else nps.uniform(-2, 2, (n, 3))
                 hist.append(("move", disp.tolist(), start))
-                obj.move(disp, start="auto" if start is None else start)
+                obj.move(disp, start=start_arg(start))
                 P, Q = ref_move(P, Q, disp, start)
                 branch[f"move-{'s' if disp.ndim == 1 else 'v'}"] = branch.get(f"move-{'s' if disp.ndim == 1 else 'v'}", 0) + 1
             elif kind == "rot":
@@ -103,7 +110,7 @@ def sweep(ctx, n_hist, n_ops):
                     anchor = np.array(anchor_arg, dtype=float)
                     branch["live-anchor"] = branch.get("live-anchor", 0) + 1
                 hist.append(("rot", rot.as_quat().tolist(), None if anchor is None else np.asarray(anchor).tolist(), start))
-                obj.rotate(None if give_none else rot, anchor=anchor_arg, start="auto" if start is None else start)
+                obj.rotate(None if give_none else rot, anchor=anchor_arg, start=start_arg(start))
                 P, Q = ref_rotate(P, Q, rot, anchor, start)
                 branch["rot-none" if give_none else "rot"] = branch.get("rot-none" if give_none else "rot", 0) + 1
             elif kind == "setpos":
